@@ -493,66 +493,73 @@ def primRenders (info : FieldInfo) (x : GoVal) (a : TfVal) : Bool :=
       | _ => false)
   | _ => false
 
+/-- rendering of one message-typed value `e` (a field value or an element) by an object value `v`, given the
+rendering predicate `rs` of the nested message's fields -/
+def objRenders (nullable : Bool) (rs : GoVal → List (String × TfVal) → Bool) (e : GoVal) (v : TfVal) : Bool :=
+  match v with
+  | .obj u n as _ =>
+    !u && (if nullable then (n == isNilPtr e) && (isNilPtr e || rs (structOf e) (as.getD []))
+           else rs (structOf e) (as.getD []))
+  | _ => false
+
 mutual
 def rendersFields (fs : List Field) (obj : GoVal) (attrs : List (String × TfVal)) : Bool :=
   match fs with
   | [] => true
-  | f :: rest => rendersField f obj attrs && rendersFields rest obj attrs
+  | f :: rest =>
+    (match attrs.lookup f.info.nameSnake with
+     | none => false
+     | some a => rendersVal f obj a) && rendersFields rest obj attrs
 
-/-- attribute `f` of a freshly created object renders the struct `obj` -/
-def rendersField (f : Field) (obj : GoVal) (attrs : List (String × TfVal)) : Bool :=
+/-- the attribute value `a` of a freshly created object renders field `f` of the struct `obj` -/
+def rendersVal (f : Field) (obj : GoVal) (a : TfVal) : Bool :=
   match f with
   | ⟨info, mapVal, _, sub⟩ =>
     let _ := mapVal
-    match attrs.lookup info.nameSnake with
-    | none => false
-    | some a =>
-      let x := getVal info obj
-      match info.kind with
-      | .primitive => if info.isPlaceholder then isNull a else primRenders info x a
-      | .custom => true
-      | .object =>
-        (match a with
-         | .obj u n as _ =>
-           !u && (if info.isNullable then (n == isNilPtr x) && (isNilPtr x || rendersFields sub (structOf x) (as.getD []))
-                  else rendersFields sub (structOf x) (as.getD []))
-         | _ => false)
-      | .primitiveList =>
-        (match a with
-         | .list u n es _ =>
-           !u && n == (sliceElems x).isEmpty && (es.getD []).length == (sliceElems x).length &&
-             ((sliceElems x).zip (es.getD [])).all fun (e, v) => primRenders info e v
-         | _ => false)
-      | .objectList =>
-        (match a with
-         | .list u n es _ =>
-           !u && n == (sliceElems x).isEmpty && (es.getD []).length == (sliceElems x).length &&
-             ((sliceElems x).zip (es.getD [])).all fun (e, v) =>
-               match v with
-               | .obj u' n' as _ =>
-                 !u' && (if info.isNullable then (n' == isNilPtr e) && (isNilPtr e || rendersFields sub (structOf e) (as.getD []))
-                         else rendersFields sub (structOf e) (as.getD []))
-               | _ => false
-         | _ => false)
-      | .primitiveMap =>
-        (match a with
-         | .map u n es _ =>
-           !u && n == (mapElems x).isEmpty && (es.getD []).length == (mapElems x).length &&
-             (mapElems x).all fun (k, e) => match (es.getD []).lookup k with
-               | some v => primRenders { info with tf := { info.tf with zeroValue := "" } } e v
-               | none => false
-         | _ => false)
-      | .objectMap =>
-        (match a with
-         | .map u n es _ =>
-           !u && n == (mapElems x).isEmpty && (es.getD []).length == (mapElems x).length &&
-             (mapElems x).all fun (k, e) => match (es.getD []).lookup k with
-               | some (.obj u' n' as _) =>
-                 !u' && (if info.isNullable then (n' == isNilPtr e) && (isNilPtr e || rendersFields sub (structOf e) (as.getD []))
-                         else rendersFields sub (structOf e) (as.getD []))
-               | _ => false
-         | _ => false)
+    let x := getVal info obj
+    match info.kind with
+    | .primitive =>
+      if info.isPlaceholder then isNull a && noUnknownFlat a
+      else if info.parentIsOptionalEmbed && parentIsNil info obj then isNull a && noUnknownFlat a
+      else primRenders info x a
+    | .custom => true
+    | .object => objRenders info.isNullable (fun o as => rendersFields sub o as) x a
+    | .primitiveList =>
+      (match a with
+       | .list u n es _ =>
+         !u && n == (sliceElems x).isEmpty && (es.getD []).length == (sliceElems x).length &&
+           ((sliceElems x).zip (es.getD [])).all fun (e, v) => primRenders info e v
+       | _ => false)
+    | .objectList =>
+      (match a with
+       | .list u n es _ =>
+         !u && n == (sliceElems x).isEmpty && (es.getD []).length == (sliceElems x).length &&
+           ((sliceElems x).zip (es.getD [])).all fun (e, v) =>
+             objRenders info.isNullable (fun o as => rendersFields sub o as) e v
+       | _ => false)
+    | .primitiveMap =>
+      (match a with
+       | .map u n es _ =>
+         !u && n == (mapElems x).isEmpty && (es.getD []).length == (mapElems x).length &&
+           (mapElems x).all fun (k, e) => match (es.getD []).lookup k with
+             | some v => primRenders { info with tf := { info.tf with zeroValue := "" } } e v
+             | none => false
+       | _ => false)
+    | .objectMap =>
+      (match a with
+       | .map u n es _ =>
+         !u && n == (mapElems x).isEmpty && (es.getD []).length == (mapElems x).length &&
+           (mapElems x).all fun (k, e) => match (es.getD []).lookup k with
+             | some v => objRenders info.isNullable (fun o as => rendersFields sub o as) e v
+             | none => false
+       | _ => false)
 end
+
+/-- attribute `f` of a freshly created object renders the struct `obj` -/
+def rendersField (f : Field) (obj : GoVal) (attrs : List (String × TfVal)) : Bool :=
+  match attrs.lookup f.info.nameSnake with
+  | none => false
+  | some a => rendersVal f obj a
 
 -- ===================================================================================================
 -- C09: in-place CopyTo follows the source
